@@ -1010,7 +1010,7 @@ func (f *Frame) exec(ins ssa.Instruction) {
 		for _, r := range x.Results {
 			vs = append(vs, f.val(r))
 		}
-		f.rets = append(f.rets, retSite{f.curReach, f.cur.clone(), vs})
+		f.rets = append(f.rets, retSite{f.curReach, f.cur.clone(), vs, x.Pos()})
 	case *ssa.If, *ssa.Jump:
 	default:
 		vc.errf("%s: unsupported instruction %T", vc.P.fnKey(f.fn), ins)
